@@ -28,6 +28,14 @@ CLAIMED = {
  "C20": ("the real newHijackWatch/receive/Stop/ResultChan between a source goroutine and a consumer under a cooperative scheduler whose choice of the next runnable goroutine at every synchronisation operation is symbolic: order/type/payload of relayed events incl. Error events, no panic, and after Stop or source end the channel is closed and no goroutine is left, for every interleaving within the preemption bound", "5/C20"),
 }
 NA = {}
+EXTRA_NOTE = {
+ "C08": " NOT decided: the clauses 'applying the recorded data reproduces the template exactly' and 'only the template influences the patch' (runtime.Encode / strategic-merge-patch / encoding/json are replaced by models during symbolic execution and only exercised by the native replay of sampled paths).",
+ "C18": " NOT decided: byte-identity of the revision data with the built-in controller's for every pod template - it is the stated ASSUMPTION of the decided part (codec path modelled); a seeded change inside that path (seeded/C18-patch-with-usenumber) is not detected.",
+ "C19": " NOT decided: clause (a), the hijack-client read-back equality / conversion never fails (encoding/json over the whole schema).",
+ "C02": " Bounded unrolling only: liveness beyond the stated number of rounds and pods is not claimed.",
+ "C20": " Interleavings are explored up to the stated preemption bound; natively the schedule is the Go scheduler's, so schedule-dependent counterexamples are replayed in their 'settled' variant (the consumer pauses before Stop).",
+ "C09": " One failing call per reconcile in the main runs, two in the 'two-failures' run; the recovery rounds are fault free.",
+}
 def main():
     m = {
      "version": 1,
@@ -55,7 +63,7 @@ def main():
           "replay_cmd_template": "./check replay {path}",
           "engine": "symgo",
           "level_claimed": {"category": "model_checking", "text": "bounded symbolic model checking of the real code: " + text, "design_ref": "DESIGN.md section " + ref},
-          "level_note": NOTE,
+          "level_note": NOTE + EXTRA_NOTE.get(pid, ""),
           "technique": TECH,
         })
     for pid in ALL:
